@@ -220,7 +220,12 @@ def run_gen(vh, family, tier, seed, shards=None, states=None, walks=None, only=N
     crash = os.path.join(out, "CRASH")
     if p.returncode != 0 and os.path.exists(crash) and "fatal error" in p.stderr:
         # the process died inside the library on the recorded case (reported like a hang: the real code did not return)
-        return {"dir": out, "hang": open(crash).read()[:2000] + " | " + p.stderr[:300], "stderr": p.stderr}
+        txt = open(crash).read()
+        try:
+            ev = json.loads(txt)
+        except Exception:
+            ev = None
+        return {"dir": out, "hang": txt[:2000] + " | " + p.stderr[:300], "crash_event": ev, "stderr": p.stderr}
     if halt_rc is not None and p.returncode == halt_rc:
         return {"dir": out, "halted": True, "files": [], "stderr": p.stderr}
     if p.returncode != 0:
